@@ -194,7 +194,19 @@ func c18ValueBlind(r *core.Report) {
 					}
 					switch x.Ast.(type) {
 					case *ast.SendStmt, *ast.ReturnStmt, *ast.AssignStmt, *ast.ExprStmt:
-						if (vo == nil || core.Mentions(info, x.Ast, vo)) && core.Mentions(info, x.Ast, eo) {
+						if as2, isAs := x.Ast.(*ast.AssignStmt); isAs {
+							// an assignment TO the error is not a hand-on
+							toErr := false
+							for _, l := range as2.Lhs {
+								if core.ObjOf(info, l) == eo {
+									toErr = true
+								}
+							}
+							if toErr {
+								continue
+							}
+						}
+						if (vo == nil || core.Mentions(info, x.Ast, vo)) && core.Mentions(info, x.Ast, eo) && !reassignedBetween(g, info, n, x, eo) {
 							together = true
 						}
 					}
